@@ -54,13 +54,15 @@ class Case:
     pass
 
 
-def make_cases(chk, routes, lits, n, rich=False, all_lits=False, lit_names=False, dotted=True, per_route=10):
+def make_cases(chk, routes, lits, n, rich=False, all_lits=False, lit_names=False, dotted=True, per_route=10, nested=None):
     cases = []
     for i in range(n):
         c = Case()
         G.LIT_P[0] = 0.6 if lit_names else 0.10
+        # every third configuration carries nested-name families (x, x.y, x.y.z in every profile/module section, with
+        # client profiles, clusters and consumers pointing at the parent and at each child)
         c.cfg, c.info = G.gen_config(chk.rng, lits if (lit_names or chk.rng.random() < 0.5) else [], rich=rich or (i % 5 == 0),
-                                     dotted=dotted and (i % 3 != 0))
+                                     dotted=dotted and (i % 3 != 0), nested=(i % 3 == 1) if nested is None else nested)
         G.LIT_P[0] = 0.10
         c.tokA, c.tokB = G.gen_tokens(chk.rng, c.cfg)
         c.cfgA, c.cfgB = G.materialise(c.cfg, c.tokA), G.materialise(c.cfg, c.tokB)
@@ -127,6 +129,7 @@ def judge(chk, cases, rows, tag, count=True):
                 chk.count("config:notifier-class=" + cl)
             chk.count("config:dotted-names=%s" % ("yes" if c.info["dotted"] else "no"))
             chk.count("config:sasl-profiles=%d" % len(c.cfg.get("sasl", {})))
+            chk.count("config:nested-name-families=%d" % min(c.info.get("families", 0), 9))
         for j, (m, p, b, meta) in enumerate(c.reqs):
             stats["pairs"] += 1
             a, bb = ra[j], rb[j]
@@ -172,7 +175,7 @@ def judge(chk, cases, rows, tag, count=True):
                     if any(G.explains(x, leaf) for x in inst):
                         stats["taint_tokens_explained"] += 1
                         continue
-                    is_pw = len(leaf) == 3 and leaf[0] in G.PW_SECTIONS and leaf[2] == "password"
+                    is_pw = G.is_pw_path(leaf)
                     rec = dict(case=ci, req=j, method=m, path=p, body=b, handler=meta["handler"], route=meta["route"],
                                params=meta["params"], token=t, form="raw", password_key=[".".join(leaf)], config=tcfg,
                                world=c.world, side="taint", code=rt[j]["code"], excerpt=excerpt(blob.encode(), t.encode()))
@@ -281,7 +284,9 @@ def run(chk, failed):
     routes = routes + extra_routes
     chk.rule = ("random Burrow configurations (1-3 clusters, consumers, client/SASL/TLS profiles, 0-4 notifiers of classes "
                 "http/email/slack/null, names incl. mixed case, dotted, key words such as 'password', string literals of the "
-                "httpserver sources) with high-entropy password tokens (plain, with JSON/URL/HTML-special characters, numeric); "
+                "httpserver sources; every third configuration with nested-name families x / x.y / x.y.z in sasl, tls, "
+                "client-profile, cluster, consumer, notifier, storage -- parent explicit or implied, child names incl. key words -- "
+                "each member referenced by a client profile, a cluster and a consumer) with high-entropy password tokens (plain, with JSON/URL/HTML-special characters, numeric); "
                 "EVERY registered route of the regenerated RouteTable with every configured name and near-misses "
                 "(case variants, <name>.password, <section>.<name>.password, other sections' names, key words) as parameters, "
                 "served by the real router under cfg and under cfg' (same configuration, fresh tokens); plus two taint runs per "
@@ -324,7 +329,8 @@ def run(chk, failed):
         # literals of the sources (a leak that needs one particular name), every literal as a parameter and as the key
         # of a query string
         C.log("C18: obligation failed, no leak in the standard batch; running the focused search")
-        for rnd, kw in enumerate((dict(rich=True, all_lits=True, per_route=30), dict(rich=True, lit_names=True, all_lits=True, per_route=30),
+        for rnd, kw in enumerate((dict(rich=True, nested=True, dotted=False, per_route=40),
+                                  dict(rich=True, all_lits=True, per_route=30), dict(rich=True, lit_names=True, all_lits=True, per_route=30, nested=True),
                                   dict(rich=False, lit_names=True, all_lits=True, dotted=False, per_route=30))):
             for rep in range(1 if not chk.thorough else 10):
                 add(judge(chk, make_cases(chk, routes, lits, 16, **kw), rows, "search%d" % rnd, count=False))
